@@ -232,7 +232,7 @@ theorem inHull_iff_mem_convexHull (S : List Pt) (p : Pt) (hnd : NonDegenerate S)
 example : NonDegenerate [(0, 0), (4, 0), (0, 4), (4, 4)] :=
   ⟨(0, 0), by simp, (4, 0), by simp, (0, 4), by simp, by decide +kernel⟩
 example : IsConvComb [(0, 0), (4, 0), (0, 4), (4, 4)] (2, 2) :=
-  ⟨[1/4, 1/4, 1/4, 1/4], rfl, by intro x hx; simp at hx; subst hx; norm_num, by norm_num, by simp [wsum]; norm_num⟩
+  ⟨[1/4, 1/4, 1/4, 1/4], rfl, by intro x hx; simp at hx; subst hx; norm_num, by norm_num, by simp [ptWsum]; norm_num⟩
 example : inHull [(0, 0), (4, 0), (0, 4), (4, 4)] (2, 2) = true ∧ inHull [(0, 0), (4, 0), (0, 4), (4, 4)] (5, 5) = false := by
   decide +kernel
 example : inTriangle (1, 1) (0, 0) (4, 0) (0, 4) = true := by decide +kernel
